@@ -4,7 +4,8 @@
  *
  *   sched_drive seq  <ncores> <behaviours.txt> <trace.ndjson>
  *       one behaviour per line, operations separated by ';' :
- *          S <es> <distance> <p1>,<p2>,...   schedule a ring of tasks with these priorities on stream <es>
+ *          S <es> <distance> <p1>,<p2>,...   schedule a ring of tasks with these priorities on stream <es> of VP 0
+ *                                            (<es> may be written <vp>.<es>)
  *                                            (a priority may carry flags: <p>h = task class with
  *                                             PARSEC_HIGH_PRIORITY_TASK, <p>:<k> = first input data is data #k)
  *          X <es>                            one select on stream <es>
@@ -39,18 +40,16 @@
 #define MAXTHR   16
 #define NDATA    8
 
-typedef struct { char kind; int es, d, first, n; } op_t;          /* tasks first..first+n-1 */
+typedef struct { char kind; int vp, es, d, first, n; } op_t;      /* tasks first..first+n-1 */
 typedef struct { int prio, high, din; } tdesc_t;
 
 static parsec_context_t *pctx;
-static parsec_vp_t *vp;
-static int nstreams;
+static int nvp, nstreams;                                         /* nstreams = streams of every VP driven */
 static parsec_task_class_t tc_plain, tc_high, tc_flow, tc_flow_high;
 static parsec_data_copy_t fake_copies[NDATA];
 static parsec_task_t *tasks[MAXTASKS + 1];
 static tdesc_t tdesc[MAXTASKS + 1];
 static int ntasks;
-static volatile int taken[MAXTASKS + 1];
 
 static void die(const char *m) { fprintf(stderr, "sched_drive: %s\n", m); exit(3); }
 
@@ -95,11 +94,17 @@ static int parse_ops(char *txt, op_t *ops, int maxops)
         memset(o, 0, sizeof(*o));
         o->kind = tok[0];
         if( 'X' == tok[0] ) {
-            if( sscanf(tok + 1, "%d", &o->es) != 1 ) die("bad X");
+            if( sscanf(tok + 1, "%d.%d", &o->vp, &o->es) != 2 ) {
+                o->vp = 0;
+                if( sscanf(tok + 1, "%d", &o->es) != 1 ) die("bad X");
+            }
         } else if( 'S' == tok[0] ) {
             int off = 0;
             char *p;
-            if( sscanf(tok + 1, "%d %d %n", &o->es, &o->d, &off) < 2 ) die("bad S");
+            if( sscanf(tok + 1, "%d.%d %d %n", &o->vp, &o->es, &o->d, &off) < 3 ) {
+                o->vp = 0;
+                if( sscanf(tok + 1, "%d %d %n", &o->es, &o->d, &off) < 2 ) die("bad S");
+            }
             p = tok + 1 + off;
             o->first = ntasks + 1;
             while( *p ) {
@@ -116,7 +121,7 @@ static int parse_ops(char *txt, op_t *ops, int maxops)
             }
             if( 0 == o->n ) die("empty ring");
         } else die("bad operation");
-        if( o->es < 0 || o->es >= nstreams ) die("stream out of range");
+        if( o->es < 0 || o->es >= nstreams || o->vp < 0 || o->vp >= nvp ) die("stream out of range");
     }
     return n;
 }
@@ -147,18 +152,18 @@ static int fmt_ring(char *buf, int cap, op_t *o, int with_ps)
     return n;
 }
 
-static parsec_execution_stream_t *stream(int e) { return vp->execution_streams[e]; }
+static parsec_execution_stream_t *stream(int v, int e) { return pctx->virtual_processes[v]->execution_streams[e]; }
 
 /* sequential drain: one select per stream, round after round, until a full round returned NULL */
 static void drain(FILE *out)
 {
-    int e, got, rounds = 0;
+    int v, e, got, rounds = 0;
     do {
         got = 0;
-        for( e = 0; e < nstreams; e++ ) {
+        for( v = 0; v < nvp; v++ ) for( e = 0; e < nstreams; e++ ) {
             int32_t rd = 0;
-            parsec_task_t *t = parsec_current_scheduler->module.select(stream(e), &rd);
-            fprintf(out, "{\"e\":\"X\",\"es\":%d,\"id\":%d,\"rd\":%d}\n", e, task_id(t), (int)rd);
+            parsec_task_t *t = parsec_current_scheduler->module.select(stream(v, e), &rd);
+            fprintf(out, "{\"e\":\"X\",\"vp\":%d,\"es\":%d,\"id\":%d,\"rd\":%d}\n", v, e, task_id(t), (int)rd);
             if( NULL != t ) got++;
         }
         if( ++rounds > 4 * MAXTASKS ) { fprintf(out, "{\"e\":\"Timeout\",\"why\":\"drain does not end\"}\n"); break; }
@@ -189,12 +194,12 @@ static int run_seq(const char *in_path, const char *out_path)
             if( 'S' == o->kind ) {
                 parsec_task_t *ring = make_ring(o);
                 fmt_ring(buf, sizeof(buf), o, 1);
-                parsec_current_scheduler->module.schedule(stream(o->es), ring, o->d);
-                fprintf(out, "{\"e\":\"S\",\"es\":%d,\"d\":%d,%s}\n", o->es, o->d, buf);
+                parsec_current_scheduler->module.schedule(stream(o->vp, o->es), ring, o->d);
+                fprintf(out, "{\"e\":\"S\",\"vp\":%d,\"es\":%d,\"d\":%d,%s}\n", o->vp, o->es, o->d, buf);
             } else {
                 int32_t rd = 0;
-                parsec_task_t *t = parsec_current_scheduler->module.select(stream(o->es), &rd);
-                fprintf(out, "{\"e\":\"X\",\"es\":%d,\"id\":%d,\"rd\":%d}\n", o->es, task_id(t), (int)rd);
+                parsec_task_t *t = parsec_current_scheduler->module.select(stream(o->vp, o->es), &rd);
+                fprintf(out, "{\"e\":\"X\",\"vp\":%d,\"es\":%d,\"id\":%d,\"rd\":%d}\n", o->vp, o->es, task_id(t), (int)rd);
             }
             fflush(out);
         }
@@ -225,14 +230,14 @@ static void *thr_body(void *arg)
         if( 'S' == o->kind ) {
             parsec_task_t *ring = make_ring(o);
             fmt_ring(buf, sizeof(buf), o, 0);
-            vt_ev("\"e\":\"Sinv\",\"t\":%d,\"es\":%d,\"d\":%d,%s", th->t, o->es, o->d, buf);
-            parsec_current_scheduler->module.schedule(stream(o->es), ring, o->d);
+            vt_ev("\"e\":\"Sinv\",\"t\":%d,\"vp\":%d,\"es\":%d,\"d\":%d,%s", th->t, o->vp, o->es, o->d, buf);
+            parsec_current_scheduler->module.schedule(stream(o->vp, o->es), ring, o->d);
             vt_ev("\"e\":\"Sres\",\"t\":%d", th->t);
         } else {
             int32_t rd = 0;
             parsec_task_t *t;
-            vt_ev("\"e\":\"Xinv\",\"t\":%d,\"es\":%d", th->t, o->es);
-            t = parsec_current_scheduler->module.select(stream(o->es), &rd);
+            vt_ev("\"e\":\"Xinv\",\"t\":%d,\"vp\":%d,\"es\":%d", th->t, o->vp, o->es);
+            t = parsec_current_scheduler->module.select(stream(o->vp, o->es), &rd);
             vt_ev("\"e\":\"Xres\",\"t\":%d,\"id\":%d", th->t, task_id(t));
         }
     }
@@ -288,8 +293,9 @@ int main(int argc, char **argv)
     MPI_Init_thread(&argc, &argv, MPI_THREAD_MULTIPLE, &provided);
     pctx = parsec_init(ncores, &pargc, &pargv);
     if( NULL == pctx ) die("parsec_init failed");
-    vp = pctx->virtual_processes[0];
-    nstreams = vp->nb_cores;
+    nvp = pctx->nb_vp;
+    nstreams = pctx->virtual_processes[0]->nb_cores;
+    for( i = 1; i < nvp; i++ ) if( pctx->virtual_processes[i]->nb_cores < nstreams ) nstreams = pctx->virtual_processes[i]->nb_cores;
     if( NULL == parsec_current_scheduler ) die("no scheduler installed");
     memset(&tc_plain, 0, sizeof(tc_plain));
     tc_plain.name = "T"; tc_plain.nb_flows = 0;
@@ -298,8 +304,8 @@ int main(int argc, char **argv)
     tc_flow_high = tc_flow; tc_flow_high.name = "TFH"; tc_flow_high.flags = PARSEC_HIGH_PRIORITY_TASK;
     memset(fake_copies, 0, sizeof(fake_copies));
     for( i = 0; i < NDATA; i++ ) fake_copies[i].original = NULL;
-    fprintf(stderr, "sched_drive: scheduler %s streams %d\n",
-            parsec_current_scheduler->component->base_version.mca_component_name, nstreams);
+    fprintf(stderr, "sched_drive: scheduler %s streams %d vps %d\n",
+            parsec_current_scheduler->component->base_version.mca_component_name, nstreams, nvp);
     if( !strcmp(argv[1], "seq") ) rc = run_seq(argv[3], argv[4]);
     else if( !strcmp(argv[1], "conc") ) rc = run_conc(argv[3], argv[4], argc > 5 ? (unsigned)atoi(argv[5]) : 1u);
     else die("bad mode");
